@@ -368,7 +368,7 @@ func (t *ComparableTree) Delete(key Comparable) {
 	t.root.lock()
 	defer t.root.unlock()
 
-	if !t.root.deleteKey(t.order, key) || t.root.count() > 1 {
+	if !t.root.deleteKey(t.order>>1, key) || t.root.count() > 1 {
 		// Root is only too small when fewer than 2 children
 		return
 	}
